@@ -243,8 +243,13 @@ def base_kwargs(kind, spec):
         for k in ("snapshot", "release", "revision", "directory"):
             kw[k] = None if s[k] is None else CoreSWHID.from_string(s[k])
         return kw
-    o = {"directory": lambda: c02._build(spec["entries"]), "snapshot": lambda: c05._build(spec["branches"]),
-         "revision": lambda: c03._build(spec)}[kind]()
+    if kind == "revision":
+        # the caller's own keyword arguments (legacy revisions carry their extra headers inside metadata: the id
+        # is computed BEFORE __attrs_post_init__ moves them to the attribute)
+        kw = c03._kwargs(spec)
+        kw.pop("id", None)
+        return kw
+    o = {"directory": lambda: c02._build(spec["entries"]), "snapshot": lambda: c05._build(spec["branches"])}[kind]()
     return {a.name: getattr(o, a.name) for a in attr.fields(type(o)) if a.name not in ("id", "raw_manifest")}
 
 
